@@ -11,9 +11,13 @@
       unless that underflows or overflows.
   §3  interleaved-complex helpers in exact arithmetic (any commutative ring `R`, `Cx R` of C17):
       `add`, `sub2_to`, `copy`, `twiddle_fma` (= the reference butterfly `cplx_twiddle_fft_ref` when both halves of
-      `omg` hold the same twiddle), the reference passes themselves, and — as they are — `bitwiddle_fma`,
-      `twiddle_avx512`, `bitwiddle_avx512`, which do NOT compute what their names say (counterexamples below; none
-      of the three has a caller in the library).
+      `omg` hold the same twiddle), the reference passes themselves, and — as it is — `bitwiddle_fma`, which does
+      NOT compute the reference radix-4 step (counterexample below; no caller in the library).
+      `twiddle_avx512` and `bitwiddle_avx512` (as repaired by commits 7805316 / 36935af of the library) are EQUAL
+      to their AVX2 twins for every arithmetic — in particular bit for bit on binary64 (`F64.arith`): every zmm is
+      two ymm of the AVX2 kernel, same operations in the same order per lane.  The kernels before the repair are
+      kept as `…Avx512Old` in the model; `cplx_*_avx512_old_exact` / `…_old_ne_fma` document the two defects
+      (D8: the data shuffle swapped only one pair of each 256-bit half; D9: 4-bit immediates in 512-bit shuffles).
 -/
 import SpqProofs.Lemmas.CoverRnx
 import SpqProofs.Lemmas.CoverTop
@@ -260,45 +264,48 @@ theorem cplx_twiddle_fma_eq_ref (m : Nat) (hm : m % 8 = 0) (h0 : 0 < m) (a b om 
   rw [r1, r2, fa', fb', eA, eB, eW, Cx.mul_comm']
   exact ⟨rfl, rfl⟩
 
-/-- `cplx_fftvec_twiddle_avx512` as it is (`16 | m`): the even-indexed complexes get `ω_0 b`, the odd-indexed
-    ones `badMul b ω_1 = (b.re·ω.re − b.re·ω.im, b.im·ω.re + b.im·ω.im)` instead of `ω_1 b`
-    (`_mm512_shuffle_pd(bri, bri, 0b10011001)` swaps only the first pair of each 256-bit half) -/
+end exact
+
+/-- `cplx_fftvec_twiddle_avx512` (repaired) = `cplx_fftvec_twiddle_fma`, `16 | m`, `m > 0`: the same pair of arrays
+    for EVERY arithmetic `ar` — a commutative ring, or binary64 bit patterns (`F64.arith`), where this is
+    bit-for-bit equality of the two kernels (C07) -/
+theorem cplx_twiddle_avx512_eq_fma {α : Type} (ar : RArith α) (m : Nat) (hm : m % 16 = 0) (h0 : 0 < m)
+    (a b om : Array α) :
+    cplxFftvecTwiddleAvx512 ar m a b om = cplxFftvecTwiddleFma ar m a b om :=
+  twiddleAvx512_eq_fma ar m hm h0 a b om
+
+section exact
+variable {R : Type} [CommRing R]
+
+/-- hence `cplx_fftvec_twiddle_avx512` computes `(a_i, b_i) ← (a_i + ω_{i mod 2} b_i, a_i − ω_{i mod 2} b_i)` -/
 theorem cplx_twiddle_avx512_exact (m : Nat) (hm : m % 16 = 0) (h0 : 0 < m) (a b om : Array R)
     (ha : 2 * m ≤ a.size) (hb : 2 * m ≤ b.size) :
     Pointwise idxCplx m a (cplxFftvecTwiddleAvx512 (RArith.ofRing R) m a b om).1
-      (fun i => ev idxCplx a i + twMulAvx512 om (i % 2) (ev idxCplx b i)) ∧
+      (fun i => ev idxCplx a i + ev idxCplx b i * omW om (i % 2)) ∧
     Pointwise idxCplx m b (cplxFftvecTwiddleAvx512 (RArith.ofRing R) m a b om).2
+      (fun i => ev idxCplx a i - ev idxCplx b i * omW om (i % 2)) := by
+  rw [twiddleAvx512_eq_fma (RArith.ofRing R) m hm h0 a b om]
+  exact twiddleFma_spec m (by omega) h0 a b om ha hb
+
+/-- D8, the kernel before commit 7805316 (`cplxFftvecTwiddleAvx512Old`): the even-indexed complexes got `ω_0 b`,
+    the odd-indexed ones `badMul b ω_1 = (b.re·ω.re − b.re·ω.im, b.im·ω.re + b.im·ω.im)` instead of `ω_1 b`
+    (`_mm512_shuffle_pd(bri, bri, 0b10011001)` swapped only the first pair of each 256-bit half) -/
+theorem cplx_twiddle_avx512_old_exact (m : Nat) (hm : m % 16 = 0) (h0 : 0 < m) (a b om : Array R)
+    (ha : 2 * m ≤ a.size) (hb : 2 * m ≤ b.size) :
+    Pointwise idxCplx m a (cplxFftvecTwiddleAvx512Old (RArith.ofRing R) m a b om).1
+      (fun i => ev idxCplx a i + twMulAvx512 om (i % 2) (ev idxCplx b i)) ∧
+    Pointwise idxCplx m b (cplxFftvecTwiddleAvx512Old (RArith.ofRing R) m a b om).2
       (fun i => ev idxCplx a i - twMulAvx512 om (i % 2) (ev idxCplx b i)) :=
-  twiddleAvx512_spec m hm h0 a b om ha hb
+  twiddleAvx512Old_spec m hm h0 a b om ha hb
 
--- Full statement (FALSE, see `cplx_twiddle_avx512_ne_fma`): for all `om`,
---   cplxFftvecTwiddleAvx512 (RArith.ofRing R) m a b om = cplxFftvecTwiddleFma (RArith.ofRing R) m a b om.
-/-- the AVX-512 twiddle equals the AVX2 one when the second twiddle is real (`omg[3] = 0`) -/
-theorem cplx_twiddle_avx512_eq_fma_partial (m : Nat) (hm : m % 16 = 0) (h0 : 0 < m) (a b om : Array R)
-    (ha : 2 * m ≤ a.size) (hb : 2 * m ≤ b.size) (hreal : om.getD 3 0 = 0) :
-    cplxFftvecTwiddleAvx512 (RArith.ofRing R) m a b om = cplxFftvecTwiddleFma (RArith.ofRing R) m a b om := by
-  obtain ⟨p1, p2⟩ := twiddleAvx512_spec m hm h0 a b om ha hb
-  obtain ⟨q1, q2⟩ := twiddleFma_spec m (by omega) h0 a b om ha hb
-  have key : ∀ i, twMulAvx512 om (i % 2) (ev idxCplx b i) = ev idxCplx b i * omW om (i % 2) := by
-    intro i
-    unfold twMulAvx512
-    rcases Nat.mod_two_eq_zero_or_one i with h | h <;> rw [h]
-    · simp
-    · have hn : ¬ ((1 : Nat) = 0) := by omega
-      rw [if_neg hn]
-      have him : (omW om 1).im = 0 := by simp only [omW, cxAt_im]; exact hreal
-      ext
-      · simp only [badMul, Cx.mul_re, him, mul_zero]
-      · simp only [badMul, Cx.mul_im, him, mul_zero, add_zero, zero_add]
-  have e1 := Pointwise.unique (covers_cplx m) (Pointwise.congr p1 (fun i _ => by rw [key i])) q1
-  have e2 := Pointwise.unique (covers_cplx m) (Pointwise.congr p2 (fun i _ => by rw [key i])) q2
-  exact Prod.ext e1 e2
-
-/-- the hypothesis `omg[3] = 0` cannot be dropped: `a = 0`, `b = (0,1),(2,3),…`, `ω_1 = i`, `m = 16` -/
-theorem cplx_twiddle_avx512_ne_fma :
-    (cplxFftvecTwiddleAvx512 (RArith.ofRing Int) 16 (Array.replicate 32 0)
+/-- D8 on concrete data: `a = 0`, `b = (0,1),(2,3),…`, `ω_1 = i`, `m = 16`: the old kernel returned −2 where the
+    AVX2 kernel (and the repaired one) return −3 -/
+theorem cplx_twiddle_avx512_old_ne_fma :
+    (cplxFftvecTwiddleAvx512Old (RArith.ofRing Int) 16 (Array.replicate 32 0)
         ((Array.range 32).map (fun (i : Nat) => Int.ofNat i)) #[0, 0, 0, 1]).1.getD 2 0 = -2 ∧
     (cplxFftvecTwiddleFma (RArith.ofRing Int) 16 (Array.replicate 32 0)
+        ((Array.range 32).map (fun (i : Nat) => Int.ofNat i)) #[0, 0, 0, 1]).1.getD 2 0 = -3 ∧
+    (cplxFftvecTwiddleAvx512 (RArith.ofRing Int) 16 (Array.replicate 32 0)
         ((Array.range 32).map (fun (i : Nat) => Int.ofNat i)) #[0, 0, 0, 1]).1.getD 2 0 = -3 := by
   decide +kernel
 
@@ -337,54 +344,52 @@ theorem cplx_bitwiddle_fma_ne_ref :
     (cplxBitwiddleFftRef (CArith.ofRing Int) 2 ((Array.range 16).map (fun (i : Nat) => Int.ofNat i)) #[1, 2, 1, 2]).getD 0 0 = -104 := by
   decide +kernel
 
-/-- `cplx_fftvec_bitwiddle_avx512` as it is (`8 | m`, `off = 8⌊slicea/64⌋`): columns `i` with `⌊i/2⌋` even (lower
-    256-bit half of a zmm) get the AVX2 kernel's `bitwFmaCx`, the others `bitwHiCx` (every product replaced by
-    `hiT ω.re`: the 8-bit immediates 5 and 15 of `_mm512_shuffle_pd` have a zero upper nibble) -/
-theorem cplx_bitwiddle_avx512_exact (m slicea : Nat) (hm : m % 8 = 0) (h0 : 0 < m) (a om : Array R)
+end exact
+
+/-- `cplx_fftvec_bitwiddle_avx512` (repaired) = `cplx_fftvec_bitwiddle_fma`, `8 | m`, `m > 0`, for EVERY arithmetic
+    (binary64 bit patterns included: bit-for-bit equality, C07), every column, whenever both kernels address the
+    same slices: `OFFSET` is `⌊slicea/64⌋` zmm resp. `⌊slicea/32⌋` ymm, the same distance iff `slicea mod 64 < 32`
+    (every multiple of 64 in particular) -/
+theorem cplx_bitwiddle_avx512_eq_fma {α : Type} (ar : RArith α) (m slicea : Nat) (hm : m % 8 = 0) (h0 : 0 < m)
+    (hs : slicea % 64 < 32) (a om : Array α) :
+    cplxFftvecBitwiddleAvx512 ar m slicea a om = cplxFftvecBitwiddleFma ar m slicea a om :=
+  bitwiddleAvx512_eq_fma ar m slicea hm h0 hs a om
+
+/-- the two equalities on the carrier the driver runs: binary64 as 64-bit patterns -/
+theorem cplx_avx512_eq_fma_binary64 (m slicea : Nat) (a b om : Array Nat) (h0 : 0 < m) :
+    (m % 16 = 0 → cplxFftvecTwiddleAvx512 F64.arith m a b om = cplxFftvecTwiddleFma F64.arith m a b om) ∧
+    (m % 8 = 0 → slicea % 64 < 32 →
+      cplxFftvecBitwiddleAvx512 F64.arith m slicea a om = cplxFftvecBitwiddleFma F64.arith m slicea a om) :=
+  ⟨fun hm => twiddleAvx512_eq_fma F64.arith m hm h0 a b om,
+   fun hm hs => bitwiddleAvx512_eq_fma F64.arith m slicea hm h0 hs a om⟩
+
+section exact
+variable {R : Type} [CommRing R]
+
+/-- D9, the kernel before commit 36935af (`cplxFftvecBitwiddleAvx512Old`, `8 | m`, `off = 8⌊slicea/64⌋`): columns `i`
+    with `⌊i/2⌋` even (lower 256-bit half of a zmm) got the AVX2 kernel's `bitwFmaCx`, the others `bitwHiCx` (every
+    product replaced by `hiT ω.re`: the 8-bit immediates 5 and 15 of `_mm512_shuffle_pd` have a zero upper nibble) -/
+theorem cplx_bitwiddle_avx512_old_exact (m slicea : Nat) (hm : m % 8 = 0) (h0 : 0 < m) (a om : Array R)
     (hoff : 2 * m ≤ 8 * (slicea / 64)) (hb : 3 * (8 * (slicea / 64)) + 2 * m ≤ a.size) :
-    (cplxFftvecBitwiddleAvx512 (RArith.ofRing R) m slicea a om).size = a.size ∧
+    (cplxFftvecBitwiddleAvx512Old (RArith.ofRing R) m slicea a om).size = a.size ∧
     (∀ i, i < m →
       let off := 8 * (slicea / 64)
       let Q := (if i / 2 % 2 = 0 then bitwFmaCx (omW om (i % 2)) else bitwHiCx (omW om (i % 2)))
         (cxAt a (2 * i)) (cxAt a (off + 2 * i)) (cxAt a (2 * off + 2 * i)) (cxAt a (3 * off + 2 * i))
-      cxAt (cplxFftvecBitwiddleAvx512 (RArith.ofRing R) m slicea a om) (2 * i) = Q.1 ∧
-      cxAt (cplxFftvecBitwiddleAvx512 (RArith.ofRing R) m slicea a om) (off + 2 * i) = Q.2.1 ∧
-      cxAt (cplxFftvecBitwiddleAvx512 (RArith.ofRing R) m slicea a om) (2 * off + 2 * i) = Q.2.2.1 ∧
-      cxAt (cplxFftvecBitwiddleAvx512 (RArith.ofRing R) m slicea a om) (3 * off + 2 * i) = Q.2.2.2) ∧
+      cxAt (cplxFftvecBitwiddleAvx512Old (RArith.ofRing R) m slicea a om) (2 * i) = Q.1 ∧
+      cxAt (cplxFftvecBitwiddleAvx512Old (RArith.ofRing R) m slicea a om) (off + 2 * i) = Q.2.1 ∧
+      cxAt (cplxFftvecBitwiddleAvx512Old (RArith.ofRing R) m slicea a om) (2 * off + 2 * i) = Q.2.2.1 ∧
+      cxAt (cplxFftvecBitwiddleAvx512Old (RArith.ofRing R) m slicea a om) (3 * off + 2 * i) = Q.2.2.2) ∧
     (∀ x, (∀ s, s < 4 → x < s * (8 * (slicea / 64)) ∨ s * (8 * (slicea / 64)) + 2 * m ≤ x) →
-      (cplxFftvecBitwiddleAvx512 (RArith.ofRing R) m slicea a om).getD x 0 = a.getD x 0) :=
-  bitwiddleAvx512_spec m slicea hm h0 a om hoff hb
+      (cplxFftvecBitwiddleAvx512Old (RArith.ofRing R) m slicea a om).getD x 0 = a.getD x 0) :=
+  bitwiddleAvx512Old_spec m slicea hm h0 a om hoff hb
 
--- Full statement (FALSE, see `cplx_bitwiddle_avx512_ne_fma`): the same for every column i < m.
-/-- AVX-512 = AVX2 on the columns `i` with `⌊i/2⌋` even (`slicea` a multiple of 64, so that both kernels see the
-    same slices, `off = slicea/8` doubles apart) -/
-theorem cplx_bitwiddle_avx512_eq_fma_partial (m slicea : Nat) (hm : m % 8 = 0) (h0 : 0 < m) (a om : Array R)
-    (hs64 : slicea % 64 = 0) (hoff : 16 * m ≤ slicea) (hb : 3 * (slicea / 8) + 2 * m ≤ a.size)
-    (i : Nat) (hi : i < m) (hlow : i / 2 % 2 = 0) :
-    cxAt (cplxFftvecBitwiddleAvx512 (RArith.ofRing R) m slicea a om) (2 * i) =
-      cxAt (cplxFftvecBitwiddleFma (RArith.ofRing R) m slicea a om) (2 * i) ∧
-    cxAt (cplxFftvecBitwiddleAvx512 (RArith.ofRing R) m slicea a om) (slicea / 8 + 2 * i) =
-      cxAt (cplxFftvecBitwiddleFma (RArith.ofRing R) m slicea a om) (slicea / 8 + 2 * i) ∧
-    cxAt (cplxFftvecBitwiddleAvx512 (RArith.ofRing R) m slicea a om) (2 * (slicea / 8) + 2 * i) =
-      cxAt (cplxFftvecBitwiddleFma (RArith.ofRing R) m slicea a om) (2 * (slicea / 8) + 2 * i) ∧
-    cxAt (cplxFftvecBitwiddleAvx512 (RArith.ofRing R) m slicea a om) (3 * (slicea / 8) + 2 * i) =
-      cxAt (cplxFftvecBitwiddleFma (RArith.ofRing R) m slicea a om) (3 * (slicea / 8) + 2 * i) := by
-  have o1 : 8 * (slicea / 64) = slicea / 8 := by omega
-  have o2 : 4 * (slicea / 32) = slicea / 8 := by omega
-  obtain ⟨_, pv, _⟩ := bitwiddleAvx512_spec m slicea hm h0 a om (by omega) (by omega)
-  obtain ⟨_, qv, _⟩ := bitwiddleFma_spec m slicea (by omega) h0 a om (by omega) (by omega)
-  have P := pv i hi
-  have Q := qv i hi
-  simp only [o1, hlow, if_true] at P
-  simp only [o2] at Q
-  obtain ⟨p0, p1, p2, p3⟩ := P
-  obtain ⟨q0, q1, q2, q3⟩ := Q
-  exact ⟨by rw [p0, q0], by rw [p1, q1], by rw [p2, q2], by rw [p3, q3]⟩
-
-/-- the upper halves differ: `m = 8`, `slicea = 128`, data `0..63`, `omg = (1+2i, 3+4i)`, column 2 -/
-theorem cplx_bitwiddle_avx512_ne_fma :
-    (cplxFftvecBitwiddleAvx512 (RArith.ofRing Int) 8 128 ((Array.range 64).map (fun (i : Nat) => Int.ofNat i)) #[1, 2, 3, 4]).getD 4 0 = 4 ∧
-    (cplxFftvecBitwiddleFma (RArith.ofRing Int) 8 128 ((Array.range 64).map (fun (i : Nat) => Int.ofNat i)) #[1, 2, 3, 4]).getD 4 0 = -246 := by
+/-- D9 on concrete data: `m = 8`, `slicea = 128`, data `0..63`, `omg = (1+2i, 3+4i)`, column 2: the old kernel
+    returned 4 where the AVX2 kernel (and the repaired one) return −246 -/
+theorem cplx_bitwiddle_avx512_old_ne_fma :
+    (cplxFftvecBitwiddleAvx512Old (RArith.ofRing Int) 8 128 ((Array.range 64).map (fun (i : Nat) => Int.ofNat i)) #[1, 2, 3, 4]).getD 4 0 = 4 ∧
+    (cplxFftvecBitwiddleFma (RArith.ofRing Int) 8 128 ((Array.range 64).map (fun (i : Nat) => Int.ofNat i)) #[1, 2, 3, 4]).getD 4 0 = -246 ∧
+    (cplxFftvecBitwiddleAvx512 (RArith.ofRing Int) 8 128 ((Array.range 64).map (fun (i : Nat) => Int.ofNat i)) #[1, 2, 3, 4]).getD 4 0 = -246 := by
   decide +kernel
 
 end exact
